@@ -6,7 +6,15 @@
 #include "common.h"
 #include "libc_frame.h"
 #include "/repo/src/opus.c"
-#include "/repo/src/extensions.c"
+/* No frame in these states carries padding or extensions (paddings NULL, padding_len 0), so the extension functions are
+   only ever called on empty input; they are replaced by stubs that assert exactly that and answer as the real
+   functions do for empty input (their behaviour on real input is C16's business). */
+opus_int32 opus_packet_extensions_count(const unsigned char *data, opus_int32 len, int nb_frames)
+{ (void)data; (void)nb_frames; __CPROVER_assert(len == 0, "extension count only on empty padding here"); return 0; }
+opus_int32 opus_packet_extensions_parse(const unsigned char *data, opus_int32 len, opus_extension_data *extensions, opus_int32 *nb_extensions, int nb_frames)
+{ (void)data; (void)extensions; (void)nb_frames; __CPROVER_assert(len == 0, "extension parse only on empty padding here"); *nb_extensions = 0; return 0; }
+opus_int32 opus_packet_extensions_generate(unsigned char *data, opus_int32 len, const opus_extension_data *extensions, opus_int32 nb_extensions, int nb_frames, int pad)
+{ (void)data; (void)len; (void)extensions; (void)nb_frames; (void)pad; __CPROVER_assert(nb_extensions == 0, "no extensions to generate here"); return 0; }
 #include "/repo/src/opus_decoder.c"
 #undef st
 #include "/repo/src/repacketizer.c"
@@ -57,7 +65,7 @@ void h_out_range(void)
    __CPROVER_assert(ret > 0 ==> ret == maxlen, "with padding requested the packet has exactly maxlen bytes");
    __CPROVER_assert(need > maxlen ==> ret == OPUS_BUFFER_TOO_SMALL, "refused when even the unpadded packet does not fit");
 #endif
-   __CPROVER_assert(maxlen < 1277 * count || ret > 0, "1277 bytes per selected frame always suffice");
+   __CPROVER_assert((sd || maxlen < 1277 * count) || ret > 0, "1277 bytes per selected frame always suffice (public, non-self-delimited API)");
    if (ret > 0) CANARY("emitted");
    CANARY("after out_range");
 }
